@@ -3,7 +3,7 @@
     Proofs/Poly_Proofs.v.  Carrier: Coq reals. *)
 From Coq Require Import Reals QArith Qreals List ZArith.
 From Coquelicot Require Import Coquelicot.
-From SB Require Import Base.Num Gen.Generated Model.Poly Spec.BezierSpec Model.RootCert Proofs.Poly_Proofs Proofs.RootCert_Proofs Proofs.F32Poly_Proofs.
+From SB Require Import Base.Num Gen.Generated Model.Poly Spec.BezierSpec Model.RootCert Model.Touch Proofs.Poly_Proofs Proofs.RootCert_Proofs Proofs.F32Poly_Proofs Proofs.Touch_Proofs.
 Import ListNotations.
 Local Open Scope R_scope.
 
@@ -138,3 +138,28 @@ Theorem lerp_binary32_error : forall a b u,
    F32Poly_Proofs.gamma32 2 * (Qabs.Qabs a + Qabs.Qabs b * Qabs.Qabs u))%Q.
 Proof. exact F32Poly_Proofs.lerp_f32_error. Qed.
 Print Assumptions lerp_binary32_error.
+
+(** ---- straight segments and the values at the ends of [0,1] ---- *)
+(** sb_i_poly_touches_2d in binary32 ([Model.Touch.touches_linear]; reached for a
+    significant leading coefficient, FLT_MIN <= |a|): the value the library's own
+    evaluation (Horner in binary32) gives at u = 0 and at u = 1 is reported as
+    taken in [0,1], for EVERY pair of binary32 coefficients - also where
+    fl(a + b) is not a + b and (fl(a + b) - b) / a exceeds 1. *)
+Theorem touches_linear_end_values : forall b a : Q,
+  (F32.rnd32 b == b)%Q -> (F32.rnd32 a == a)%Q -> Qltb (Qabs' a) F32.FLT_MIN = false ->
+  Touch.touches_linear b a (Touch.eval_linear_f32 b a 0) <> None /\
+  Touch.touches_linear b a (Touch.eval_linear_f32 b a 1) <> None.
+Proof. intros b a Hb Ha Hs. split; [exact (Touch_Proofs.touches_linear_end0 b a Hb Hs) | exact (Touch_Proofs.touches_linear_end1 b a Hb Ha Hs)]. Qed.
+Print Assumptions touches_linear_end_values.
+
+Theorem eval_linear_is_horner : forall b a u : Q, (F32.rnd32 a == a)%Q ->
+  (Touch.eval_linear_f32 b a u == horner F32.F32Ops [b; a] u)%Q.
+Proof. exact Touch_Proofs.eval_linear_is_horner. Qed.
+Print Assumptions eval_linear_is_horner.
+
+(** not vacuous: slope 0.1f from 1 (p(1) = fl(1 + 0.1f), and (p(1) - 1) / 0.1f > 1) *)
+Example touches_linear_example :
+  let a := (13421773 # 134217728)%Q in
+  (F32.rnd32 a == a)%Q /\ Qltb (Qabs' a) F32.FLT_MIN = false /\
+  match Touch.touches_linear 1 a (Touch.eval_linear_f32 1 a 1) with Some u => (1 < u)%Q | None => False end.
+Proof. vm_compute. repeat split; reflexivity. Qed.
